@@ -379,12 +379,7 @@ def step (d : D) (line : String) : D × String :=
           let want := match b64 with | some v => s!"={cpsOut v}" | none => "err"
           let s' :=
             if p.kinds.clipboard == .timeout then run p d.sys [.input q, .clipCall, .step]
-            else if p.kinds.clipboard == .nonblocking then
-              -- `select { case ch <- v: default: }` with nobody waiting: the effect is dropped at once
-              (match next p d.sys (.input q) with
-               | some (.ok s1) => run p { s1 with pend := s1.pend.filter (fun e => match e with | .sendClipboard _ => false | _ => true) } [.clipCall, .clipCancel]
-               | _ => none)
-            else none
+            else run p d.sys [.input q, .step, .clipCall, .clipCancel]   -- `select` + `default`: dropped at once (LTS)
           let res := match s'.bind (·.clipGot.getLast?) with
             | some v => s!"={cpsOut v}"
             | none => "err"
